@@ -209,7 +209,7 @@ func c02Trans(c *Ctx, pre *Node, st Step, res *Result, post *State) ([]Violation
 func checkC02(e *RunEnv) *CheckResult {
 	P := []string{"lib/x", "lib.go", "lib-old", "a b", "lib_z", "libs/y"}
 	spec := &Spec{
-		Seeds: []Seed{{"S0", seedS0()}, {"S1lib", append(seedS0(), Write("lib/x", v1("lib/x")), Write("lib.go", v1("lib.go")), Run("add", "lib", "lib.go"), Run("commit", "-m", "c1"))}},
+		Seeds: []Seed{{"S0", seedS0()}, {"S1lib", append(seedS0(), Write("lib/x", v1("lib/x")), Write("lib/keep", v1("lib/keep")), Write("lib.go", v1("lib.go")), Run("add", "lib", "lib.go"), Run("commit", "-m", "c1"))}},
 		Depth: e.pick(4, 6),
 		Steps: func(n *Node) []Step {
 			a := n.Abs()
@@ -252,10 +252,20 @@ func checkC02(e *RunEnv) *CheckResult {
 			}
 			t := nameSetTags(set)
 			steps = append(steps, Run(append([]string{"add"}, topLevel(set)...)...).WithTags(t...), Run("commit", "-m", "m").WithTags(t...))
+			if len(set) >= 2 {
+				// a second snapshot after one removal and one edit: nothing of the first may be carried over wrongly
+				steps = append(steps, Run("rm", set[0]).WithTags(t...), Write(set[len(set)-1], v2(set[len(set)-1])), Run("add", set[len(set)-1]).WithTags(t...), Run("commit", "-m", "m2").WithTags(t...))
+			}
 			cases = append(cases, Case{Base: base, BaseName: "S0", BaseSeed: seedS0(), Steps: steps})
 		}
 		// one large snapshot: 60 entries in nested directories (sorting and buffering behave differently above small sizes)
 		cases = append(cases, Case{Base: base, BaseName: "S0", BaseSeed: seedS0(), Steps: bigSnapshotSteps()})
+		// one directory of 900 files (its tree exceeds 32 KiB, the index 64 KiB), names of 250 and 255 bytes,
+		// two directories with identical content
+		cases = append(cases, Case{Base: base, BaseName: "S0", BaseSeed: seedS0(), Steps: hugeDirSteps(900)})
+		if e.Thorough() {
+			cases = append(cases, Case{Base: base, BaseName: "S0", BaseSeed: seedS0(), Steps: hugeDirSteps(150)})
+		}
 		// identity: every (local?, global?) x (name, e-mail) combination that is complete
 		var idc []Case
 		initOnly := x.BuildState([]Step{Run("init")})
@@ -287,6 +297,22 @@ func checkC02(e *RunEnv) *CheckResult {
 		cov["states"] = x.States + sweep
 	})
 	return res
+}
+
+// hugeDirSteps: n files in one directory plus names at the length limit and two identical directories;
+// commit, then remove one file, edit one, commit again.
+func hugeDirSteps(n int) []Step {
+	var steps []Step
+	for i := 0; i < n; i++ {
+		p := fmt.Sprintf("huge/file-%04d.txt", i)
+		steps = append(steps, Write(p, v1(p)))
+	}
+	n255, n250 := strings.Repeat("n", 255), "huge/"+strings.Repeat("m", 250)
+	steps = append(steps, Write(n255, "name of 255 bytes\n"), Write(n250, "name of 250 bytes\n"),
+		Write("v1/data/x", "same\n"), Write("v1/data/y", "same too\n"), Write("v2/data/x", "same\n"), Write("v2/data/y", "same too\n"),
+		Run("add", "huge", n255, "v1", "v2"), Run("commit", "-m", "huge directory"),
+		Run("rm", "huge/file-0007.txt"), Write("huge/file-0500.txt", "edited\n"), Write("v2/data/x", "no longer the same\n"), Run("add", "huge/file-0500.txt", "v2"), Run("commit", "-m", "huge directory, second snapshot"))
+	return steps
 }
 
 // bigSnapshotSteps: 60 files over 12 directories (two levels), staged and committed, then one file
